@@ -44,6 +44,7 @@ type KnownFindings struct {
 
 // MatchCtx is what a matcher may look at.
 type MatchCtx struct {
+	Base   *Model // model of the initial state (nil = empty store)
 	Params []string
 	Prop   string
 	V      *Violation
@@ -83,8 +84,16 @@ func LoadKnownFindings() *KnownFindings {
 }
 
 // Match returns the id of the known finding that explains the violation, or "".
+func (kf *KnownFindings) MatchSpec(s *Spec, v *Violation, hist []Op) string {
+	return kf.match(&MatchCtx{Prop: s.ID, V: v, Hist: hist, Cfg: s.Cfg, Base: s.BaseModel})
+}
+
 func (kf *KnownFindings) Match(prop string, v *Violation, hist []Op, cfg Cfg) string {
-	c := &MatchCtx{Prop: prop, V: v, Hist: hist, Cfg: cfg}
+	return kf.match(&MatchCtx{Prop: prop, V: v, Hist: hist, Cfg: cfg})
+}
+
+func (kf *KnownFindings) match(c *MatchCtx) string {
+	prop := c.Prop
 	for _, e := range kf.Entries {
 		if e.Status != "known" {
 			continue
@@ -191,7 +200,7 @@ func stepOver(s *Spec, hist []Op, v *Violation) bool {
 	if s.KF == nil {
 		return false
 	}
-	if id := s.KF.Match(s.ID, v, hist, s.Cfg); id != "" {
+	if id := s.KF.MatchSpec(s, v, hist); id != "" {
 		s.KF.Note(id, s, hist, v)
 		return true
 	}
